@@ -11,7 +11,7 @@ Fields(layer, f) ==
     [] layer = "inner_packets" -> <<"tag_octet", "length_forms", "unknown_packets", "nested_containers", "truncate_every_prefix">>
     [] layer = "compressed" -> <<"algorithm", "corrupt_stream", "nested", "empty">>
     [] layer = "literal" -> <<"mode", "name_length", "date", "truncated_header">>
-    [] layer = "signature" -> <<"version", "type", "pk_algorithm", "hash", "hashed_length", "unhashed_length", "subpacket_length_forms", "mpi_bits", "salt_length">>
+    [] layer = "signature" -> <<"version", "type", "pk_algorithm", "hash", "hashed_length", "unhashed_length", "subpacket_length_forms", "mpi_bits", "salt_length", "embedded_nesting">>
     [] layer = "protection_fields" -> <<"usage", "cipher", "aead", "s2k_type", "s2k_hash", "s2k_count", "length_octets", "iv_truncated">>
     [] layer = "protected_material" -> <<"length_0_40", "check_value", "truncate_every_prefix">>
     [] layer = "secret_values" -> <<"mpi_bits", "scalar_lengths", "zero_values">>
